@@ -125,6 +125,25 @@ def _sweep(ctx, p, rng):
         _t(ctx, lambda: algopy.triu(x)); _t(ctx, lambda: algopy.tril(x, -1)); _t(ctx, lambda: algopy.dot(x, c.T)); _t(ctx, lambda: algopy.dot(c.T, y))
     if len(shape) == 3:
         _t(ctx, lambda: algopy.dot(x, y[0]))
+    # entries that are inf or nan (masked values, overflowed intermediates) through the operations that only select, move or discard entries
+    if n:
+        d = gen.series_data(rng, D, P, shape, 'R', 'random', False, 0.5)
+        flat = d[0].reshape(P, n)
+        for pp in range(P):
+            for v in (np.inf, -np.inf, np.nan):
+                flat[pp, int(rng.integers(n))] = v
+        d[0] = flat.reshape((P,) + shape)
+        x = UTPM(d)
+        _t(ctx, lambda: -x); _t(ctx, lambda: x.T); _t(ctx, lambda: algopy.reshape(x, (n,))); _t(ctx, lambda: algopy.tile(x, 2)); _t(ctx, lambda: algopy.real(x))
+        if len(shape) >= 1:
+            _t(ctx, lambda: x[::-1]); _t(ctx, lambda: x[..., :1])
+        if len(shape) == 1:
+            _t(ctx, lambda: algopy.diag(x))
+        if len(shape) == 2:
+            for k in (0, 1, -1):
+                _t(ctx, lambda: algopy.triu(x, k)); _t(ctx, lambda: algopy.tril(x, k)); _t(ctx, lambda: algopy.diag(x, k))
+            if shape[0] == shape[1]:
+                _t(ctx, lambda: algopy.symvec(x, 'L')); _t(ctx, lambda: algopy.symvec(x, 'U'))
     ctx.ok('sweep', ('sweep', D, P, shape))
 
 
